@@ -276,6 +276,36 @@ impl<'a, T: Transport> Transferrer<'a, T> {
                 return self.create(source, dest_path).await;
             }
 
+            // A destination file that has further hard links -- a snapshot made with `cp -al`, or files
+            // that used to be hard links of each other in the source and no longer are -- is never
+            // rewritten in place: the other names would change with it (two such files overwrote
+            // each other's content on alternate runs). It is replaced through a working file; a group
+            // whose source files still are hard links keeps its shared inode.
+            #[cfg(unix)]
+            if !(self.preserve_hardlinks && source.nlink > 1) {
+                use std::os::unix::fs::MetadataExt;
+                // (a destination of 10 MB or more is rebuilt through a working file by the delta
+                // path anyway)
+                const IN_PLACE_BELOW: u64 = 10 * 1024 * 1024;
+                if matches!(std::fs::symlink_metadata(dest_path), Ok(ref m) if m.is_file() && m.nlink() > 1 && m.len() < IN_PLACE_BELOW)
+                {
+                    let working = crate::temp_file::temp_path_for(dest_path);
+                    let _ = std::fs::remove_file(&working);
+                    let result = match self.transport.copy_file(&source.path, &working).await {
+                        Ok(result) => result,
+                        Err(e) => {
+                            let _ = std::fs::remove_file(&working);
+                            return Err(e);
+                        }
+                    };
+                    std::fs::rename(&working, dest_path)?;
+                    self.write_xattrs(source, dest_path).await?;
+                    self.write_acls(source, dest_path).await?;
+                    self.write_bsd_flags(source, dest_path).await?;
+                    return Ok(Some(result));
+                }
+            }
+
             // Use delta sync for updates
             let result = self
                 .transport
